@@ -27,6 +27,7 @@ Registered ==
     U("http", "", "[::1]", "", "/cb", "", ""),
     U("http", "", "localhost", "", "/cb", "", ""),
     U("http", "", "client.example", "", "/cb", "", ""),
+    U("http", "", "localhost.evil.example", "", "/cb", "", ""),      \* a remote host: "localhost" is not its last label
     U("https", "", "127.0.0.1", "", "/cb", "", ""),
     U("myapp", "", "client.example", "", "/cb", "", "") }
 
